@@ -5,7 +5,25 @@ from pathlib import Path
 
 HERE = Path(__file__).resolve().parent
 
+LW_NOTE = ('Trusted: TLC; /verif/shims for four absent third-party modules; patched datetime clock (upstream mock_time technique); '
+           'independent ISO-BMFF walker and lxml MPD projection; rebasing of >31-bit numbers by the projection. Small scope: 6 layouts '
+           'over a 20 s reference on a 1/40 s clock grid; HTTP level: bbb fixture stream, seeded (template, options, clock) vectors.')
+
 CHECKS = {
+    'C01': dict(
+        technique='TLA+ spec LiveWindow.tla: TLC over every (layout, options, clock) state of the implementation-shaped model; every '
+                  'state replayed on the real timing layer; real manifests + all advertised segments fetched over HTTP; TLC trace validation',
+        text='TLC checks exhaustively in small scope that everything a manifest advertises (DASH 5.3.9.5.3 window computed from manifest '
+             'attributes only) is served by the implementation-shaped model; each model state is replayed on the real DashTiming/'
+             'Representation/LiveMedia code and validated by TLC (LiveWindowTrace, incl. model-vs-code drift); at real scale every '
+             'advertised init/media URL of real manifests is fetched at the same clock and judged by TLC (LiveWindowHttpTrace).',
+        note=LW_NOTE, design='4 C01'),
+    'C02': dict(
+        technique='TLA+ spec LiveWindow.tla (C02 clauses): TLC design-level check + pure-layer replay + HTTP responses projected by an '
+                  'independent MP4 walker, validated by TLC',
+        text='Same pipeline as C01; clauses C02_TimeExact, C02_NumberExact, C02_Gapless, C02_SourceAligned are evaluated by TLC on every '
+             'served segment (tfdt, mfhd sequence number, summed sample durations, payload identity, position modulo the reference duration).',
+        note=LW_NOTE + ' Known finding C02-drift-duration is matched by a narrow signature (known_findings.json).', design='4 C02'),
     'C20': dict(
         technique='TLA+ spec BufferedReader.tla: TLC exhaustive refinement check (implementation-shaped cache model vs '
                   'in-memory stream) + every model edge replayed on the real class + TLC trace validation of recorded calls',
